@@ -88,6 +88,7 @@ type Summary struct {
 	Policies    map[string]int   `json:"policies"`
 	Foreign     int              `json:"foreign_failures"`
 	ForeignSig  map[string]int   `json:"foreign_sigs"`
+	ForeignEx   map[string]string `json:"foreign_examples"`
 	HarnessErrs []string         `json:"harness_errs"`
 }
 
@@ -629,6 +630,14 @@ func (a *agg) add(s *Summary) {
 	for k, v := range s.ForeignSig {
 		a.sum.ForeignSig[k] += v
 	}
+	for k, v := range s.ForeignEx {
+		if a.sum.ForeignEx == nil {
+			a.sum.ForeignEx = map[string]string{}
+		}
+		if _, ok := a.sum.ForeignEx[k]; !ok && len(a.sum.ForeignEx) < 16 {
+			a.sum.ForeignEx[k] = v
+		}
+	}
 	for _, d := range s.Digests {
 		a.digests[d] = true
 	}
@@ -695,6 +704,7 @@ func writeEvidence(prop, tier string, seed uint64, meta PropMeta, a *agg, violat
 		"scheduling_policies": a.sum.Policies,
 		"aborted_by_foreign_failure": a.sum.Foreign,
 		"foreign_failure_kinds":      a.sum.ForeignSig,
+		"foreign_failure_examples":   a.sum.ForeignEx,
 		"components_real":     meta.Real,
 		"components_stub":     meta.Stub,
 		"worker_cpu_seconds":  runWall,
